@@ -229,7 +229,7 @@ def registry_rules(ctx, rule: str):
     files = fsr.attrs.get("_files")
     ok = isinstance(files, FuncInfo) and len(_self_attr_uses(files.node, "_extensions")) == 1
     r.ob(rule + ".filesystem-siblings", fsr.qualname + "._files", ok, "the file filter must be derived from self._extensions", files.where() if isinstance(files, FuncInfo) else fsr.where())
-    ok = len(_self_attr_uses(gi.node, "_extensions")) >= 1
+    ok = any(len(_self_attr_uses(t, "_extensions")) >= 1 for t in expanded(gi))
     r.ob(rule + ".filesystem-siblings", gi.qualname + "#extensions", ok, "lookup must try exactly the supported extensions (self._extensions)", gi.where())
     # yielded key is the stem
     ys = [n for n in ast.walk(it.node) if isinstance(n, ast.Yield)]
@@ -243,9 +243,12 @@ def registry_rules(ctx, rule: str):
     item_calls = [n for n in xwalk(gi) if isinstance(n, ast.Call) and isinstance(n.func, ast.Name) and n.func.id == "Item"]
     ok = len(item_calls) == 1 and any(kw.arg == "id" and ast.unparse(kw.value) == "record.id" for kw in item_calls[0].keywords)
     r.ob(rule + ".filesystem-id", gi.qualname + "#Item", ok, "the Item must carry the record's (re-assigned) id", gi.where())
-    last = gi.node.body[-1]
-    ok = isinstance(last, ast.Raise) and "KeyError" in ast.unparse(last)
-    r.ob(rule + ".filesystem-keyerror", gi.qualname, ok, "an absent key must raise KeyError (fall-through of the lookup)", gi.where())
+    raises = [n for n in xwalk(gi) if isinstance(n, ast.Raise) and n.exc is not None]
+    rets = [n for n in ast.walk(gi.node) if isinstance(n, ast.Return)]
+    ok = (bool(raises) and all(ast.unparse(n.exc).startswith("KeyError(") for n in raises) and _terminates(gi.node.body)
+          and all(n.value is not None and _resolve_alias([gi.node], n.value) in item_calls for n in rets))
+    r.ob(rule + ".filesystem-keyerror", gi.qualname, ok,
+         "an absent key must raise KeyError: the lookup either returns the Item built from an existing file or ends in `raise KeyError(...)` (no other exit)", gi.where())
     wrap = [n for n in xwalk(gi) if isinstance(n, ast.Call) and isinstance(n.func, ast.Name) and n.func.id == "CircularRecord"]
     ok = bool(wrap) and any(kw.arg == "entity" and "characterize(record)" in ast.unparse(kw.value) for kw in item_calls[0].keywords) if item_calls else False
     r.ob(rule + ".circular-record", gi.qualname, ok, "the file's record must be wrapped in CircularRecord and that record characterised", gi.where())
@@ -255,20 +258,221 @@ def registry_rules(ctx, rule: str):
     mod = fr.module
     if "_ANTIBIOTICS" not in mod.assigns or not isinstance(mod.assigns["_ANTIBIOTICS"], ast.Dict):
         raise AnalysisError("anchor vanished: registry._utils._ANTIBIOTICS")
-    rets = [n for n in ast.walk(fr.node) if isinstance(n, ast.Return)]
-    ok = bool(rets)
-    for n in rets:
-        s = ast.unparse(n.value) if n.value is not None else "None"
-        if not (s.startswith("_ANTIBIOTICS.get(") or s.startswith("_ANTIBIOTICS[")):
-            ok = False
-    last = fr.node.body[-1]
-    ok = ok and isinstance(last, ast.Raise)
-    r.ob(rule + ".known-resistance", fr.qualname, ok,
-         "find_resistance must return only values of the antibiotics table or raise: returns %s" % [(_src(fr, n.value) if n.value is not None else None) for n in rets], fr.where())
-    # the key looked up is a member of the table (intersection with the table)
-    inter = [n for n in xwalk(fr) if isinstance(n, ast.Call) and isinstance(n.func, ast.Attribute) and n.func.attr == "intersection" and n.args and ast.unparse(n.args[0]) == "_ANTIBIOTICS"]
-    inter += [n for n in xwalk(fr) if isinstance(n, ast.Compare) and len(n.ops) == 1 and isinstance(n.ops[0], ast.In) and ast.unparse(n.comparators[0]) == "_ANTIBIOTICS"]
-    r.ob(rule + ".known-resistance", fr.qualname + "#membership", bool(inter), "the label looked up must be known to be a key of the antibiotics table", fr.where())
+    bad = table_value_returns(p, fr, "_ANTIBIOTICS")
+    if not _terminates(fr.node.body):
+        bad.append("line %d: the function can fall off its end (returns None) instead of raising" % fr.node.body[-1].lineno)
+    r.ob(rule + ".known-resistance", fr.qualname, not bad,
+         "find_resistance must return only values of the antibiotics table, looked up under a key known to be in the table, or raise: %s" % "; ".join(bad), fr.where())
+
+
+def _terminates(body) -> bool:
+    """no path falls off the end of the block"""
+    if not body:
+        return False
+    last = body[-1]
+    if isinstance(last, (ast.Return, ast.Raise)):
+        return True
+    if isinstance(last, ast.If):
+        return _terminates(last.body) and _terminates(last.orelse)
+    if isinstance(last, ast.Try):
+        handlers = all(_terminates(h.body) for h in last.handlers)
+        if last.finalbody and _terminates(last.finalbody):
+            return True
+        return handlers and (_terminates(last.orelse) if last.orelse else _terminates(last.body))
+    if isinstance(last, ast.With):
+        return _terminates(last.body)
+    if isinstance(last, ast.While) and isinstance(last.test, ast.Constant) and last.test.value:
+        return not any(isinstance(n, ast.Break) for n in ast.walk(last))
+    if isinstance(last, (ast.For, ast.While)) and last.orelse:
+        return _terminates(last.orelse)
+    return False
+
+
+# provenance lattice of the key under which the table is read
+_OTHER, _MEMBER, _MEMBERS = "other", "member", "members"
+
+
+def table_value_returns(p: Program, fi: FuncInfo, table: str, depth: int = 3) -> List[str]:
+    """Every return of ``fi`` is ``table[k]`` / ``table.get(k)`` where ``k`` is
+    provably a key of the table: popped / indexed / unpacked / iterated from a
+    collection built by intersecting with the table or by filtering on
+    ``x in table`` (through module-level helpers), or guarded by such a test.
+    Returns the list of complaints."""
+    mod = fi.module
+
+    def is_table(e) -> bool:
+        t = ast.unparse(e)
+        return t in (table, "%s.keys()" % table, "set(%s)" % table, "frozenset(%s)" % table, "list(%s)" % table,
+                     "six.viewkeys(%s)" % table, "six.iterkeys(%s)" % table, "%s.__contains__" % table)
+
+    class Env(object):
+        def __init__(self, fn: ast.FunctionDef, depth: int):
+            self.fn, self.depth = fn, depth
+            self.kinds: Dict[str, str] = {}
+            self.parents = {}
+            for n in ast.walk(fn):
+                for c in ast.iter_child_nodes(n):
+                    self.parents[c] = n
+            # each round recomputes every name from the previous round's table (join over all its bindings); names
+            # start as "other", so cyclic definitions stay "other"
+            for _ in range(6):
+                new: Dict[str, str] = {}
+                for n in ast.walk(fn):
+                    for name, kind in self.bindings(n):
+                        new[name] = kind if new.get(name, kind) == kind else _OTHER
+                for a in fn.args.posonlyargs + fn.args.args + fn.args.kwonlyargs:
+                    new[a.arg] = _OTHER
+                if new == self.kinds:
+                    break
+                self.kinds = new
+
+        def bindings(self, n):
+            if isinstance(n, ast.Assign):
+                for t in n.targets:
+                    yield from self.bind(t, n.value)
+            elif isinstance(n, ast.AnnAssign) and n.value is not None:
+                yield from self.bind(n.target, n.value)
+            elif isinstance(n, ast.NamedExpr):
+                yield from self.bind(n.target, n.value)
+            elif isinstance(n, (ast.For, ast.comprehension)):
+                if isinstance(n.target, ast.Name):
+                    yield n.target.id, (_MEMBER if self.kind(n.iter) == _MEMBERS else _OTHER)
+                else:
+                    for x in ast.walk(n.target):
+                        if isinstance(x, ast.Name):
+                            yield x.id, _OTHER
+            elif isinstance(n, ast.AugAssign) and isinstance(n.target, ast.Name):
+                yield n.target.id, _OTHER
+            elif isinstance(n, (ast.With,)):
+                for it in n.items:
+                    if it.optional_vars is not None:
+                        for x in ast.walk(it.optional_vars):
+                            if isinstance(x, ast.Name):
+                                yield x.id, _OTHER
+
+        def bind(self, target, value):
+            if isinstance(target, ast.Name):
+                yield target.id, self.kind(value)
+            elif isinstance(target, (ast.Tuple, ast.List)):
+                k = self.kind(value)
+                for el in target.elts:
+                    if isinstance(el, ast.Starred):
+                        if isinstance(el.value, ast.Name):
+                            yield el.value.id, (_MEMBERS if k == _MEMBERS else _OTHER)
+                    elif isinstance(el, ast.Name):
+                        yield el.id, (_MEMBER if k == _MEMBERS else _OTHER)
+                    else:
+                        for x in ast.walk(el):
+                            if isinstance(x, ast.Name):
+                                yield x.id, _OTHER
+
+        def guarded(self, name_node: ast.Name) -> bool:
+            """the use sits in the true branch of `if name in table` (or after `if name not in table: raise/continue/return`)"""
+            cur = name_node
+            while cur in self.parents:
+                par = self.parents[cur]
+                if isinstance(par, (ast.If, ast.IfExp)) and (cur in par.body if isinstance(par, ast.If) else cur is par.body):
+                    for t in ([par.test] + (par.test.values if isinstance(par.test, ast.BoolOp) and isinstance(par.test.op, ast.And) else [])):
+                        if (isinstance(t, ast.Compare) and len(t.ops) == 1 and isinstance(t.ops[0], ast.In)
+                                and isinstance(t.left, ast.Name) and t.left.id == name_node.id and is_table(t.comparators[0])):
+                            return True
+                if isinstance(par, (ast.comprehension,)):
+                    pass
+                cur = par
+            return False
+
+        def kind(self, e) -> str:
+            if isinstance(e, ast.Name):
+                if self.guarded(e):
+                    return _MEMBER
+                return self.kinds.get(e.id, _OTHER)
+            if isinstance(e, ast.BinOp) and isinstance(e.op, ast.BitAnd):
+                if is_table(e.left) or is_table(e.right) or _MEMBERS in (self.kind(e.left), self.kind(e.right)):
+                    return _MEMBERS
+            if isinstance(e, (ast.ListComp, ast.SetComp, ast.GeneratorExp)) and len(e.generators) == 1:
+                g = e.generators[0]
+                if isinstance(g.target, ast.Name) and isinstance(e.elt, ast.Name) and e.elt.id == g.target.id:
+                    if self.kind(g.iter) == _MEMBERS:
+                        return _MEMBERS
+                    for c in g.ifs:
+                        for t in ([c] + (c.values if isinstance(c, ast.BoolOp) and isinstance(c.op, ast.And) else [])):
+                            if (isinstance(t, ast.Compare) and len(t.ops) == 1 and isinstance(t.ops[0], ast.In)
+                                    and isinstance(t.left, ast.Name) and t.left.id == g.target.id and is_table(t.comparators[0])):
+                                return _MEMBERS
+            if isinstance(e, ast.Subscript) and not isinstance(e.slice, ast.Slice) and self.kind(e.value) == _MEMBERS:
+                return _MEMBER
+            if isinstance(e, ast.Subscript) and isinstance(e.slice, ast.Slice) and self.kind(e.value) == _MEMBERS:
+                return _MEMBERS
+            if isinstance(e, ast.IfExp):
+                a, b = self.kind(e.body), self.kind(e.orelse)
+                return a if a == b else _OTHER
+            if isinstance(e, ast.Call):
+                f = e.func
+                if isinstance(f, ast.Attribute):
+                    if f.attr == "intersection" and e.args and (all(is_table(a) or self.kind(a) == _MEMBERS for a in e.args) or self.kind(f.value) == _MEMBERS):
+                        return _MEMBERS
+                    if f.attr == "intersection" and is_table(f.value):
+                        return _MEMBERS
+                    if f.attr == "pop" and self.kind(f.value) == _MEMBERS and len(e.args) <= 1:
+                        return _MEMBER
+                    if f.attr in ("copy",) and self.kind(f.value) == _MEMBERS:
+                        return _MEMBERS
+                if isinstance(f, ast.Name):
+                    if f.id in ("set", "list", "sorted", "tuple", "frozenset", "iter", "reversed") and len(e.args) == 1 and self.kind(e.args[0]) == _MEMBERS:
+                        return _MEMBERS
+                    if f.id in ("next", "min", "max") and len(e.args) == 1 and self.kind(e.args[0]) == _MEMBERS:
+                        return _MEMBER
+                    if f.id == "filter" and len(e.args) == 2 and (is_table(e.args[0]) or self.kind(e.args[1]) == _MEMBERS and ast.unparse(e.args[0]) == "None"):
+                        return _MEMBERS
+                    callee = p.resolve_expr(mod, f)
+                    if isinstance(callee, FuncInfo) and callee.owner is None and self.depth > 0:
+                        sub = Env(callee.node, self.depth - 1)
+                        ks = set()
+                        for rn in ast.walk(callee.node):
+                            if isinstance(rn, ast.Return):
+                                if rn.value is None or (isinstance(rn.value, ast.Constant) and rn.value.value is None):
+                                    continue
+                                ks.add(sub.kind(rn.value))
+                        if len(ks) == 1:
+                            return ks.pop()
+            return _OTHER
+
+    def complaints(fn: ast.FunctionDef, depth: int) -> List[str]:
+        env = Env(fn, depth)
+        out = []
+        rets = [n for n in ast.walk(fn) if isinstance(n, ast.Return)]
+        if not rets:
+            out.append("%s has no return" % fn.name)
+        for n in rets:
+            v = n.value
+            if isinstance(v, ast.Name):
+                # a name bound once to a table read
+                defs = [a.value for a in ast.walk(fn) if isinstance(a, ast.Assign) and len(a.targets) == 1
+                        and isinstance(a.targets[0], ast.Name) and a.targets[0].id == v.id]
+                if len(defs) == 1:
+                    v = defs[0]
+            key = None
+            if isinstance(v, ast.Subscript) and ast.unparse(v.value) == table:
+                key = v.slice
+            elif (isinstance(v, ast.Call) and isinstance(v.func, ast.Attribute) and v.func.attr == "get"
+                  and ast.unparse(v.func.value) == table and len(v.args) == 1 and not v.keywords):
+                key = v.args[0]
+            elif isinstance(v, ast.Call) and isinstance(v.func, ast.Name) and depth > 0:
+                callee = p.resolve_expr(mod, v.func)
+                if isinstance(callee, FuncInfo) and callee.owner is None:
+                    out.extend(complaints(callee.node, depth - 1))
+                    continue
+            if key is None:
+                out.append("line %d: returns `%s`, not a read of %s" % (n.lineno, ast.unparse(n.value) if n.value is not None else "None", table))
+                continue
+            k = env.kind(key)
+            if k != _MEMBER:
+                out.append("line %d: `%s` is read under `%s`, which is not known to be a key of the table (it is not taken from the "
+                           "labels that were matched against the table), so the lookup can answer None / raise KeyError for a record "
+                           "that does carry a known cassette" % (n.lineno, table, ast.unparse(key)))
+        return out
+
+    return complaints(fi.node, depth)
 
 
 def _returns_only(fi: FuncInfo, forms) -> bool:
